@@ -24,7 +24,7 @@ template <typename IntegralN, typename IntegralK>
 static constexpr auto div_ceil(const IntegralN& n,
                                const IntegralK& k) -> decltype(n + k)
 {
-    return (n + k - 1) / k;
+    return n / k + (n % k > 0);
 }
 
 //! \}
